@@ -205,6 +205,14 @@ def build(backend, tier):
         links = [{"name": "a", "k": k1, "wrap": 0}]
         md = [mti("Root", "a", return_type="W1" + "*" * k1)] * 2 + term_md("W1", "t_int", None) * 2
         add(f"declared-twice-identically:k{k1}", "j.a().t_int()", md, gen_prelude(backend, links), col_types={"int"})
+    # ---- const-qualified declarations ("const W1*"): the qualifier must survive into every declaration made from the type
+    for k1, d, tn in itertools.product((0, 1, 2), (None, 1), ("t_int", "t_double")):
+        links = [{"name": "a", "k": k1, "wrap": d or 0}]
+        md = [mti("Root", "a", return_type="const W1" + "*" * k1)] + term_md("W1", tn, d)
+        pre = gen_prelude(backend, links)
+        add(f"const:chain2:k{k1}:d{d}:{tn}", f"j.a().{tn}()", md, pre, col_types=TERMINALS[tn][3])
+        add(f"const:first:k{k1}:d{d}:{tn}", f"ds.Select(lambda e: e.Roots('A').Select(lambda j: j.a()).First().{tn}())", md, pre, whole=True)
+        add(f"const:ifexp:k{k1}:d{d}:{tn}", f"(j.a().{tn}() if j.a().t_int() > 10 else j.a().{tn}())", md + (term_md("W1", "t_int", d) if tn != "t_int" else []), pre)
     # ---- two deref counts on one type: the wrapper's own method (deref 0) and the payload's (deref d)
     for k1, d in itertools.product((0, 1, 2), (1, 2)):
         links = [{"name": "a", "k": k1, "wrap": d}]
